@@ -19,6 +19,7 @@ COQ_AGREE = 'agree'
 REPLAY_KIND = 'input'
 EXHAUSTIVE = {'quick': False, 'thorough': False}
 IMPL_TIMEOUT = 1500
+COQ_SHARD = 120      # ddl cases are large terms: smaller files elaborate faster and spread over the cores
 RULE = ('five case streams from one PRNG: (ddl) random class declarations, 1..6 columns over 16 column kinds x '
         '(dbName, length/varchar, notNone, unique in {unset,False,True}, alternateID, default, defaultSQL, cascade in '
         '{None,True,False,"null"}, refColumn, enum values with quotes/backslashes/commas/None), custom table/idName/idType/idSize, '
